@@ -124,6 +124,18 @@ func allQueries() []query {
 		query{Name: "user-string PREFIX \"\" AND type EQ REGULAR attrs=[S]", Class: "user-string+secondary", Filters: []flt{{"S", pfx, ""}, {object.FilterType, eq, "REGULAR"}}, Attrs: []string{"S"}},
 		query{Name: "user-numeric GE -100 AND LE 5 attrs=[N]", Class: "user-numeric+range", Filters: []flt{{"N", ge, "-100"}, {"N", le, "5"}}, Attrs: []string{"N"}},
 		query{Name: "user-numeric GE -100 AND owner NE u1 attrs=[N]", Class: "user-numeric+secondary", Filters: []flt{{"N", ge, "-100"}, {object.FilterOwnerID, ne, b58(own1[:])}}, Attrs: []string{"N"}},
+		// several filters on the primary attribute mixing matcher kinds: the first filter alone selects the
+		// index (and so the order of every per-shard list); values of N and of the payload size are chosen
+		// so that their string and numeric orders differ (-3 0 10 5 / 0 10 2 3 4)
+		query{Name: "user-numeric NE zzz AND GE -100 attrs=[N]", Class: "mixed-kinds:string-first+numeric-later", Filters: []flt{{"N", ne, "zzz"}, {"N", ge, "-100"}}, Attrs: []string{"N"}},
+		query{Name: "user-numeric NE zzz AND GE -100 attributeless", Class: "mixed-kinds:string-first+numeric-later", Filters: []flt{{"N", ne, "zzz"}, {"N", ge, "-100"}}},
+		query{Name: "user-numeric PREFIX \"\" AND LE 10 attrs=[N]", Class: "mixed-kinds:string-first+numeric-later", Filters: []flt{{"N", pfx, ""}, {"N", le, "10"}}, Attrs: []string{"N"}},
+		query{Name: "user-numeric NE 5 AND GT -5 AND LT 100 attrs=[N,S]", Class: "mixed-kinds:string-first+numeric-later", Filters: []flt{{"N", ne, "5"}, {"N", gt, "-5"}, {"N", lt, "100"}}, Attrs: []string{"N", "S"}},
+		query{Name: "payload-size PREFIX \"\" AND GE 0 attrs=[size]", Class: "mixed-kinds:string-first+numeric-later", Filters: []flt{{object.FilterPayloadSize, pfx, ""}, {object.FilterPayloadSize, ge, "0"}}, Attrs: []string{object.FilterPayloadSize}},
+		query{Name: "user-numeric GE -100 AND NE 5 attrs=[N]", Class: "mixed-kinds:numeric-first+string-later", Filters: []flt{{"N", ge, "-100"}, {"N", ne, "5"}}, Attrs: []string{"N"}},
+		query{Name: "user-numeric GE -100 AND NE 5 attributeless", Class: "mixed-kinds:numeric-first+string-later", Filters: []flt{{"N", ge, "-100"}, {"N", ne, "5"}}},
+		query{Name: "user-numeric LT 100 AND PREFIX 1 attrs=[N]", Class: "mixed-kinds:numeric-first+string-later", Filters: []flt{{"N", lt, "100"}, {"N", pfx, "1"}}, Attrs: []string{"N"}},
+		query{Name: "payload-size GT 0 AND NE 3 attrs=[size]", Class: "mixed-kinds:numeric-first+string-later", Filters: []flt{{object.FilterPayloadSize, gt, "0"}, {object.FilterPayloadSize, ne, "3"}}, Attrs: []string{object.FilterPayloadSize}},
 		// additional requested attributes
 		query{Name: "user-string PREFIX \"\" attrs=[S,N,owner]", Class: "user-string+more-attrs", Filters: []flt{{"S", pfx, ""}}, Attrs: []string{"S", "N", object.FilterOwnerID}},
 		query{Name: "type PREFIX \"\" attrs=[type,associate]", Class: "type+more-attrs", Filters: []flt{{object.FilterType, pfx, ""}}, Attrs: []string{object.FilterType, object.AttributeAssociatedObject}},
